@@ -1,4 +1,8 @@
 import FGVerif.Proofs.C06
+import FGVerif.Proofs.C06Full
+import FGVerif.Proofs.C06Relabel
+import FGVerif.Proofs.C06Default
+import FGVerif.Proofs.C06Total
 #print axioms C06.history_independent
 #print axioms C06.env_independent
 #print axioms C06.view_env_independent
@@ -6,3 +10,20 @@ import FGVerif.Proofs.C06
 #print axioms C06.deterministic
 #print axioms C06.input_untouched
 #print axioms C06.hash_dependent_witness_unrepaired
+#print axioms C06.env_independent_strings
+#print axioms C06.env_independent_fg
+#print axioms C06.env_independent_default
+#print axioms C06.buildFull_map
+#print axioms C06.buildFull_eq
+#print axioms C06.history_end_to_end
+#print axioms C06.query_end_to_end
+#print axioms C06.query_end_to_end_checked
+#print axioms C06.fgQueryGetM_eq_get
+#print axioms C06.getFunctionalGroups_relabel
+#print axioms C06.default_inputs_c07
+#print axioms C06.default_strings_distinct_full
+#print axioms C06.default_assertion_free_full
+#print axioms C06.default_end_to_end
+#print axioms C06.default_query_end_to_end
+#print axioms C06.view_env_independentE
+#print axioms C06.query_end_to_end_total
